@@ -101,8 +101,8 @@ func plan(tier string, seed int64) []run.Batch {
 	concChildren, concPer := 8, 5
 	delayRounds := 1
 	if tier == "thorough" {
-		seqChildren, seqPer = 16, 25
-		concChildren, concPer = 100, 20
+		seqChildren, seqPer = 80, 5
+		concChildren, concPer = 400, 5
 		delayRounds = 5
 	}
 	var bs []run.Batch
@@ -118,10 +118,10 @@ func plan(tier string, seed int64) []run.Batch {
 		}
 	}
 	for i := 0; i < concChildren; i++ {
-		bs = append(bs, run.Batch{Kind: "conc", Seed: next(), N: concPer, Variant: "race", TimeoutS: 110})
+		bs = append(bs, run.Batch{Kind: "conc", Seed: next(), N: concPer, Variant: "race", TimeoutS: 240})
 	}
 	for i := 0; i < seqChildren; i++ {
-		bs = append(bs, run.Batch{Kind: "seq", Seed: next(), N: seqPer, TimeoutS: 110})
+		bs = append(bs, run.Batch{Kind: "seq", Seed: next(), N: seqPer, TimeoutS: 240})
 	}
 	return bs
 }
@@ -155,6 +155,13 @@ func keyState(k [32]byte) string { return hex.EncodeToString(k[:]) }
 // of the registered key. It returns every possible next state; none = the
 // (input, output) pair is impossible in this state.
 func step(state string, c *call, out int) []string {
+	if c.Kind == "read" {
+		// observation of the server's key state: Signed = a key is registered, Key = that key
+		if (state == "" && !c.Signed && c.Key == [32]byte{}) || (state != "" && c.Signed && state == keyState(c.Key)) {
+			return []string{state}
+		}
+		return nil
+	}
 	if c.Kind == "register" {
 		if c.ValidReg && state == "" {
 			switch out {
@@ -203,14 +210,28 @@ func step(state string, c *call, out int) []string {
 // above (accepted orders of the winner, refused valid registrations: returned
 // after t*). Bounds on one instant are jointly satisfiable iff they are
 // pairwise, so it suffices that every upper bound meets all lower bounds in
-// one part: part i = possible winners + all orders of possible winners + the
-// i-th refused valid registration. Without this the k-1 refused registrations
+// one part: part i = possible winners + all answered orders of possible
+// winners + all observations of the key state + the i-th refused valid
+// registration. Calls whose exchange failed constrain nothing (any outcome is
+// allowed) and only a registration among them can change the state. Without this the k-1 refused registrations
 // that are pending at the same time commute and the search visits 2^(k-1)
 // subsets whenever it has to backtrack.
 func partition(h []porcupine.Operation) [][]porcupine.Operation {
+	answered := false // a valid registration was answered 200
+	for _, o := range h {
+		if c := o.Input.(*call); c.ValidReg && o.Output.(int) == outOK {
+			answered = true
+		}
+	}
+	// possible winners: valid registrations answered 200; if there is none,
+	// those whose exchange failed (may have been executed). Once one was
+	// answered 200 no other registration can have had an effect in any legal
+	// order (it would have made the 200 impossible), so the failed exchanges
+	// are calls without effect and are dropped like the other unconstrained ones.
 	reach := map[string]bool{}
 	for _, o := range h {
-		if c := o.Input.(*call); c.ValidReg && o.Output.(int) != outFail {
+		c, out := o.Input.(*call), o.Output.(int)
+		if c.ValidReg && (out == outOK || (out == outUnknown && !answered)) {
 			reach[keyState(c.Key)] = true
 		}
 	}
@@ -218,11 +239,17 @@ func partition(h []porcupine.Operation) [][]porcupine.Operation {
 	for _, o := range h {
 		c, out := o.Input.(*call), o.Output.(int)
 		switch {
+		case c.Kind == "read":
+			core = append(core, o)
 		case c.ValidReg && out == outFail:
 			refused = append(refused, o)
-		case c.ValidReg, out == outOK:
+		case c.ValidReg && out == outUnknown:
+			if !answered {
+				core = append(core, o)
+			}
+		case out == outOK:
 			core = append(core, o)
-		case c.Kind != "register" && c.Signed && reach[keyState(c.Signer)]:
+		case out == outFail && c.Kind != "register" && c.Signed && reach[keyState(c.Signer)]:
 			core = append(core, o)
 		}
 	}
@@ -249,6 +276,9 @@ var model = (&porcupine.NondeterministicModel{
 	Equal: func(a, b interface{}) bool { return a.(string) == b.(string) },
 	DescribeOperation: func(in interface{}, out interface{}) string {
 		c := in.(*call)
+		if c.Kind == "read" {
+			return fmt.Sprintf("read -> %x registered=%v", c.Key[:6], c.Signed)
+		}
 		return fmt.Sprintf("%s[%s] -> %s", c.Kind, c.Label, outName[out.(int)])
 	},
 }).ToModel()
@@ -432,6 +462,7 @@ type ctx struct {
 	// sequentially judged part ("" = unset). It has one element unless a call's
 	// HTTP exchange failed (outcome unknown); inspect narrows it again.
 	states []string
+	reader int  // client id under which observations of the key state are recorded
 	bad    bool // a violation was raised in this history
 }
 
@@ -492,10 +523,10 @@ func (x *ctx) dump(withBodies bool) []recJSON {
 	var out []recJSON
 	for _, rc := range h {
 		j := recJSON{Client: rc.Client, Op: rc.C.Kind, Class: rc.C.Label, Call: rc.Call, Ret: rc.Ret, Result: outName[rc.Out]}
-		if rc.C.Kind == "register" {
+		if rc.C.Kind == "register" || rc.C.Kind == "read" {
 			j.Key = hex.EncodeToString(rc.C.Key[:6])
 		}
-		if rc.C.Signed {
+		if rc.C.Signed && rc.C.Kind != "read" {
 			j.Signer = hex.EncodeToString(rc.C.Signer[:6])
 		}
 		if withBodies && rc.C.Kind == "register" {
@@ -579,7 +610,13 @@ func short(s string) string {
 // inspect compares the server's key state, gcaPubKey.dat and the public lists
 // with the model state.
 func (x *ctx) inspect(where string) {
+	t0 := time.Since(x.start).Nanoseconds()
 	snap := x.srv.S.VerifSnapshot(false)
+	t1 := time.Since(x.start).Nanoseconds()
+	// the observation is part of the history (taken under the server's own lock)
+	x.mu.Lock()
+	x.hist = append(x.hist, rec{Client: x.reader, C: &call{Kind: "read", Label: where, Key: snap.GCAKey, Signed: snap.GCAAvailable}, Call: t0, Out: outOK, Ret: t1})
+	x.mu.Unlock()
 	extra := map[string]interface{}{"where": where, "model_states": x.states}
 	// which of the possible model states does the server show?
 	match := -1
@@ -1017,6 +1054,7 @@ func seqHistory(b run.Batch, r *ev.Result, sink uint16, idx int) {
 // judged and also recorded for porcupine.
 func (x *ctx) afterwards(client int, cands []refenc.Key, prefix string) {
 	g := x.g
+	x.reader = client
 	x.inspect(prefix + "after the batch")
 	if x.bad {
 		return
